@@ -113,12 +113,26 @@ def run(ctx, prog):
                                     eq_edges.append((i, tg))
                 if eq_edges:
                     r0 = f.reach([0], avoid_edges=eq_edges)
-                    if bb not in r0:
+                    # … and the hot copy itself is what its token says: TieredEngine::insert mirrors its vector under the token it reads back after
+                    # its canonical write, so a second overwrite in between leaves write A's vector under write B's token; only the integrity digest
+                    # inside canonical_vector_state (Match) rejects that copy
+                    from rules import C04 as _c04
+                    medges = []
+                    for v in f.calls_to('TieredEngine::canonical_vector_state'):
+                        if any(_c04.contains_call(of.of_operand(a), c) for a in v.args[2:4] for c in vroots if c is not None and c not in mroots):
+                            medges += _c04.match_edges(f, v, of)
+                    r1 = f.reach([0], avoid_edges=medges)
+                    if bb not in r0 and medges and bb not in r1:
                         same = True
-                        how = 'hot-tier vector admitted past token(hot) = token(fetch)'
+                        how = 'hot-tier vector admitted past canonical Match (token + digest) and token(hot) = token(fetch)'
+                    elif bb not in r0:
+                        how = 'token equality only'
             ctx.inst('C05.R1', f.short, 'pair #%d comes from one canonical read' % k, m_atomic and same,
                      ('metadata from %s, vector from %s [%s]' % (sorted(set(flow.short(c.callee) if c else '?' for c in mroots)), sorted(set(flow.short(c.callee) if c else '?' for c in vroots)), how))
                      if (m_atomic and same) else
+                     ('the pair built at %s admits a recent-write-tier vector on token equality alone: a mirror written under a later write\'s token (two overwrites racing in '
+                      'TieredEngine::insert) passes, and the vector of one write is returned with the metadata of another; the digest check of canonical_vector_state (Match) must gate it' % f.loc_of(bb))
+                     if how == 'token equality only' else
                      ('the pair built at %s takes its metadata from %s and its vector from %s — two separate acquisitions of the canonical store, so an overwrite in between '
                       'returns a vector and metadata of different writes' % (f.loc_of(bb), sorted(set(flow.short(c.callee) if c else '?' for c in mroots)), sorted(set(flow.short(c.callee) if c else '?' for c in vroots)))))
     q = server.handler(ctx, 'C05.R1', 'query', 'KyroDBServiceImpl::tenant_context')
